@@ -223,15 +223,26 @@ func genC08(tier string, seed int64) (*Family, error) {
 			pre(n)+"\tmustOK(rb.BuildRuleWithIncremental(verRule(\"a\", 2, s0, \"newa\")), \"incremental build\")\n\tspec[\"a\"] = specRule{2, s0, \"newa\"}\n"+untouched([]string{"a"})+"\tcheckSet(rb, spec, nil)\n")
 		// removal: every subset of existing names plus an absent name
 		for mask := 0; mask < 1<<n; mask++ {
-			for _, withAbsent := range []bool{false, true} {
+			for _, variant := range []string{"", "absent-last", "absent-first", "repeat-first"} {
 				var rm []string
 				for i := 0; i < n; i++ {
 					if mask&(1<<i) != 0 {
 						rm = append(rm, names[i])
 					}
 				}
-				if withAbsent {
+				switch variant {
+				case "absent-last":
 					rm = append(rm, "zz")
+				case "absent-first":
+					if len(rm) == 0 {
+						continue
+					}
+					rm = append([]string{"zz"}, rm...)
+				case "repeat-first":
+					if len(rm) < 2 {
+						continue
+					}
+					rm = append([]string{rm[0]}, rm...)
 				}
 				if len(rm) == 0 {
 					continue
